@@ -63,6 +63,20 @@ class LogRing(logging.Handler):
 _current = None     # the World whose server is being constructed / running
 
 
+def _set_default(fn, name, value):
+    """Set the default of one named positional parameter (by name, so that the harness does not depend on
+    the rest of the signature)."""
+    import inspect
+    params = [p for p in inspect.signature(fn).parameters.values()
+              if p.kind in (p.POSITIONAL_ONLY, p.POSITIONAL_OR_KEYWORD)]
+    with_default = [p for p in params if p.default is not p.empty]
+    names = [p.name for p in with_default]
+    if name in names and fn.__defaults__:
+        d = list(fn.__defaults__)
+        d[names.index(name)] = value
+        fn.__defaults__ = tuple(d)
+
+
 def _install_capture():
     """Harness-side wrappers (no repo change): remember the objects the Controller creates and
     record the calls on the Notifications object."""
@@ -70,8 +84,8 @@ def _install_capture():
         return
     bp_init = bpmod.BlockProcessor.__init__
 
-    def bp_init_wrap(self, env, db, daemon, notifications):
-        bp_init(self, env, db, daemon, notifications)
+    def bp_init_wrap(self, *args, **kwargs):
+        bp_init(self, *args, **kwargs)
         if _current is not None:
             _current._on_bp(self)
     bpmod.BlockProcessor.__init__ = bp_init_wrap
@@ -79,8 +93,8 @@ def _install_capture():
 
     sm_init = sessmod.SessionManager.__init__
 
-    def sm_init_wrap(self, env, db, bp, daemon, mempool, shutdown_event):
-        sm_init(self, env, db, bp, daemon, mempool, shutdown_event)
+    def sm_init_wrap(self, *args, **kwargs):
+        sm_init(self, *args, **kwargs)
         if _current is not None:
             _current._on_smgr(self)
     sessmod.SessionManager.__init__ = sm_init_wrap
@@ -88,8 +102,8 @@ def _install_capture():
     import electrumx.server.history as hmod
     h_init = hmod.History.__init__
 
-    def h_init_wrap(self):
-        h_init(self)
+    def h_init_wrap(self, *args, **kwargs):
+        h_init(self, *args, **kwargs)
         if _current is not None and _current.k.get('max_hist_row'):
             self.max_hist_row_entries = _current.k['max_hist_row']
     hmod.History.__init__ = h_init_wrap
@@ -253,7 +267,7 @@ class World:
         # hard-coded poll periods, varied only by families to which block / mempool polling is irrelevant
         bpmod.BlockProcessor.polling_delay = self.k.get('polling_delay') or 5
         rs = float(self.k.get('refresh_secs') or 5.0)
-        mpmod.MemPool.__init__.__defaults__ = (rs, 60.0)
+        _set_default(mpmod.MemPool.__init__, 'refresh_secs', rs)
 
     def _install(self):
         global _current
